@@ -153,7 +153,7 @@ def pk_conservation(F):
 
 def pk(props=("C16", "C03"), recipe=(1, 1), n_pallets=2, blocking=True, split_out=1, split_sel="FIRST_AVAILABLE", sym=("ip", "ii", "pd"), comb_cap=2,
        until=None, twin=False, split_blocking=None, item_cap=2, mid_cap=1, out_cap=1, out_delay=0, comb_only=False, split_pd="sym", setup=0,
-       mid_mode="FIFO", split_sd_hi=3, split_in_sel="FIRST_AVAILABLE", item_delay=0, item_mode="FIFO", src_sel=0, no_combiner=False, split_quantity=None):
+       mid_mode="FIFO", split_sd_hi=3, split_in_sel="FIRST_AVAILABLE", item_delay=0, item_mode="FIFO", src_sel=0, no_combiner=False, split_quantity=None, out_kind="buffer", mid_kind="buffer", conv_kw=None, comb_out_sel="FIRST_AVAILABLE"):
     """pallet source + item source(s) -> Combiner(recipe) -> MID -> Splitter -> OUT_j -> sinks"""
     def fn(ctx):
         from factorysimpy.nodes.source import Source
@@ -182,7 +182,7 @@ def pk(props=("C16", "C03"), recipe=(1, 1), n_pallets=2, blocking=True, split_ou
             od = F.delay_source("MIDDELAY", [ctx.real("od", 0, 4) for _ in range(n_pallets)], "generator", after=0)
         need = [recipe[i + 1] * n_pallets for i in range(n_ing)]
         comb = None if no_combiner else F.add_node(Combiner(env, "CMB", target_quantity_of_each_item=list(recipe), processing_delay=F.delay_source("CMB", [pd] * (n_pallets + 1), "callable", after=1),
-                                   blocking=blocking, node_setup_time=setup))
+                                   blocking=blocking, node_setup_time=setup, out_edge_selection=comb_out_sel))
         F.unit_delay["CMB"] = pd
         sp = F.add_node(Source(env, "SP", flow_item_type="pallet", inter_arrival_time=F.delay_source("SP", [ip] * n_pallets, "generator"), blocking=True, out_edge_selection=src_sel))
         if not no_combiner:
@@ -205,12 +205,12 @@ def pk(props=("C16", "C03"), recipe=(1, 1), n_pallets=2, blocking=True, split_ou
                                       in_edge_selection=split_in_sel,
                                       out_edge_selection=_policy(F, ctx, "SPL", "out", split_sel, split_out, 0), node_setup_time=setup))
             F.unit_delay["SPL"] = sd
-            em = _edge(F, "buffer", "MID", mid_cap, 0, mode=mid_mode)
+            em = _edge(F, mid_kind, "MID", mid_cap, 0, **(dict(conv_kw or {}, mode=mid_mode) if mid_kind == "buffer" else (conv_kw or {})))
             em.connect(sp if no_combiner else comb, spl)
             for j in range(split_out):
                 k = F.add_node(Sink(env, f"K{j}"))
                 sinks.append(k)
-                eo = _edge(F, "buffer", f"OUT{j}", out_cap, od)
+                eo = _edge(F, out_kind, f"OUT{j}", out_cap, od, **(conv_kw or {}))
                 eo.connect(spl, k)
         F.step_hooks.append(mon_capacity)
         if "C16" in F.props or "C08" in F.props:
@@ -243,6 +243,13 @@ def pk(props=("C16", "C03"), recipe=(1, 1), n_pallets=2, blocking=True, split_ou
                 disc = sum(n.stats.get("num_item_discarded", 0) for n in F.nodes if n.__class__.__name__ != "Sink")
                 recv = sum(n.stats["num_item_received"] for n in F.nodes if n.__class__.__name__ == "Sink")
                 packed_in_sink = sum(1 for r in F.items.values() if r.loc is not None and r.loc[0] == "pallet" and F.rec(r.loc[1]).loc is not None and F.rec(r.loc[1]).loc[0] == "sink")
+                # ... or loaded on a pallet that never left its node: if a non-blocking node dropped that pallet, the pallet is the counted discard and
+                # its load (read from the real Pallet.items) goes with it - drops are not located in this scenario; if the pallet is merely stuck,
+                # it is itself unaccounted and the identity below still fails
+                for P in F.items.values():
+                    if P.loc is not None and P.loc[0] in ("node", "discarded") and hasattr(P.obj, "items"):
+                        packed_in_sink += sum(1 for r in F.items.values() if r is not P and r.loc is not None and r.loc[0] in ("node", "pallet", "discarded")
+                                              and any(r.obj is x for x in P.obj.items))
                 F.ctx.hit("C03:quiescence-checked")
                 if gen != disc + recv + packed_in_sink:
                     F.soft("C03:items-left-behind-at-quiescence", {"generated": gen, "discarded": disc, "received": recv, "packed_and_received": packed_in_sink})
